@@ -578,4 +578,757 @@ theorem phase1_PInv : ∀ (k : Nat) (st st' : Ph1), phase1 k st = .ok st' → k 
           refine ⟨hres, ?_⟩
           rw [hlen]; simp only [setSeq, List.length_set]
 
+/-! ## Forward: the whole mixed batch is stored at once -/
+
+theorem findGo_free (n : Nat) : ∀ (cs pre : List Cell) (i start count r : Nat),
+    pre.length = i → start + count = i → (∀ x ∈ pre.drop start, x.seqs = []) →
+    findGo n cs i start count = some r → ∀ x ∈ ((pre ++ cs).drop r).take n, x.seqs = [] := by
+  intro cs
+  induction cs with
+  | nil => intro pre i start count r _ _ _ h; simp [findGo] at h
+  | cons c cs ih =>
+    intro pre i start count r hlen hsc hfree h
+    unfold findGo at h
+    have hassoc : pre ++ c :: cs = (pre ++ [c]) ++ cs := by simp
+    by_cases hce : c.seqs.isEmpty
+    · have hc : c.seqs = [] := by simpa using hce
+      simp only [hce, if_true] at h
+      by_cases hn : count + 1 ≥ n
+      · simp only [hn, if_true, Option.some.injEq] at h
+        subst h
+        intro x hx
+        rw [hassoc, List.drop_append_of_le_length (by simp; omega)] at hx
+        rw [List.take_append_of_le_length (by simp; omega)] at hx
+        have hx2 := List.mem_of_mem_take hx
+        rw [List.drop_append_of_le_length (by omega)] at hx2
+        rcases List.mem_append.mp hx2 with h1 | h1
+        · exact hfree x h1
+        · simp only [List.mem_singleton] at h1
+          rw [h1]; exact hc
+      · simp only [hn, if_false] at h
+        rw [hassoc]
+        apply ih (pre ++ [c]) (i + 1) start (count + 1) r (by simp; omega) (by omega) _ h
+        intro x hx
+        rw [List.drop_append_of_le_length (by omega)] at hx
+        rcases List.mem_append.mp hx with h1 | h1
+        · exact hfree x h1
+        · simp only [List.mem_singleton] at h1; rw [h1]; exact hc
+    · simp only [hce, Bool.false_eq_true, if_false] at h
+      rw [hassoc]
+      apply ih (pre ++ [c]) (i + 1) (i + 1) 0 r (by simp; omega) (by omega) _ h
+      intro x hx
+      rw [List.drop_eq_nil_of_le (by simp; omega)] at hx
+      cases hx
+
+/-- `findStartLoc` returns the start of a run of free cells -/
+theorem findStartLoc_free (cells : List Cell) (n loc : Nat) (h : findStartLoc cells n = some loc) :
+    ∀ x ∈ (cells.drop loc).take n, x.seqs = [] := by
+  have := findGo_free n cells [] 0 0 0 loc rfl rfl (by simp) h
+  simpa using this
+
+/-- the cache holds, for every slot, the record followed by the slot's part of the batch -/
+def PC (c : Cache) (pend : Nat → List Tok) : Prop :=
+  PosBound c.cells ∧ ∀ j, ∀ hj : j < c.slots.length, c.slots[j].id = j ∧
+    SlotOK c.cells { c.slots[j] with inputs := c.slots[j].inputs ++ pend j }
+
+theorem slot_append_nil (sl : Slot) : ({ sl with inputs := sl.inputs ++ [] } : Slot) = sl := by
+  cases sl; simp
+
+/-- **Batching several sequences together**: one `store` of a batch that interleaves the runs of several
+    slots (each at positions record length + k) leaves every slot's sequence holding exactly its record
+    followed by its own part of the batch.  `cells0` is any relocation of the cells (defrag). -/
+theorem store_PC (c : Cache) (batch : List BTok) (pend : Nat → List Tok) (loc : Nat) (cells0 : List Cell)
+    (hc : Coherent c) (hcfg : Cfg c) (hbv : BV c batch pend)
+    (hpu : ∀ j, j < c.slots.length → pend j ≠ [] → (getSlot c.slots j).inUse = true)
+    (hperm : ∀ s, (view cells0 s).Perm (view c.cells s)) (hb0 : PosBound cells0)
+    (hfree : ∀ x ∈ (cells0.drop loc).take batch.length, x.seqs = []) :
+    PC { c with cells := store cells0 loc batch } pend := by
+  refine ⟨store_bound cells0 loc batch hb0 (fun t ht => by have := hbv.2 t ht; have := hcfg.ctx; omega), ?_⟩
+  intro j hj
+  have hj' : j < c.slots.length := hj
+  obtain ⟨hid, hok⟩ := hc.2 j hj'
+  obtain ⟨hv, hl⟩ := hbv.1 j hj'
+  rw [getSlot_eq _ _ hj'] at hv hl
+  refine ⟨hid, ?_⟩
+  have hsv := store_view cells0 loc batch j hfree
+  rw [hv] at hsv
+  have hsv2 : (view (store cells0 loc batch) j).Perm
+      (view c.cells j ++ canonFrom c.slots[j].inputs.length (pend j)) :=
+    hsv.trans (List.Perm.append_right _ (hperm j))
+  by_cases hp : pend j = []
+  · simp only [hp, canonFrom, List.append_nil] at hsv2
+    show SlotOK (store cells0 loc batch) { c.slots[j] with inputs := c.slots[j].inputs ++ pend j }
+    rw [hp, slot_append_nil]
+    exact SlotOK_perm c.cells _ _ (by rw [hid]; exact hsv2) hok
+  · have hu : c.slots[j].inUse = true := by
+      have := hpu j hj' hp; rw [getSlot_eq _ _ hj'] at this; exact this
+    have hall : ∀ x ∈ view c.cells j, x.1 < (c.slots[j].inputs.length : Int) := by
+      have := hok.2 hu; rw [hid] at this; exact this
+    have hV : (view c.cells j).Perm (canon c.slots[j].inputs) := by
+      have := hok.1
+      rw [hid, filter_all _ _ (fun x hx => by simpa using hall x hx)] at this
+      exact this
+    have hnew : (view (store cells0 loc batch) j).Perm (canon (c.slots[j].inputs ++ pend j)) := by
+      refine hsv2.trans ?_
+      unfold canon
+      rw [canonFrom_append, Nat.zero_add]
+      exact List.Perm.append_right _ hV
+    have hall' : ∀ x ∈ view (store cells0 loc batch) j, x.1 < ((c.slots[j].inputs ++ pend j).length : Int) := by
+      intro x hx
+      have := canonFrom_mem 0 _ x (hnew.mem_iff.mp hx)
+      omega
+    refine ⟨?_, ?_⟩
+    · simp only [hid]
+      rw [filter_all _ _ (fun x hx => by simpa using hall' x hx)]
+      exact hnew
+    · intro _; simp only [hid]; exact hall'
+
+/-! ## after Forward: records appended, stop cut, release (`phase3`) -/
+
+/-- invariant of the per-sequence loop after Forward: entries below `d` are done, entries from `l` on still
+    have their part of the batch in `pend` -/
+structure R (sv : Server) (pend : Nat → List Tok) (d l : Nat) : Prop where
+  pc : PC sv.cache pend
+  cfg : Cfg sv.cache
+  own : Owned sv
+  lenb : ∀ j, j < sv.cache.slots.length →
+    (getSlot sv.cache.slots j).inputs.length + (pend j).length ≤ sv.cache.numCtx
+  np : ∀ j, j < sv.cache.slots.length → (∀ i sq, Live sv i sq → sq.slot ≠ j) → pend j = []
+  dn : ∀ i sq, Live sv i sq → i < d → sq.pending = [] ∧ pend sq.slot = []
+  lp : ∀ i sq, Live sv i sq → l ≤ i → sq.pending = pend sq.slot
+
+theorem PC_update (c : Cache) (pend pend' : Nat → List Tok) (s : Nat) (hs : s < c.slots.length) (g : Slot → Slot)
+    (hpc : PC c pend) (hid : (g c.slots[s]).id = s) (hother : ∀ j, j ≠ s → pend' j = pend j)
+    (hself : SlotOK c.cells { g c.slots[s] with inputs := (g c.slots[s]).inputs ++ pend' s }) :
+    PC { c with slots := setSlot c.slots s g } pend' := by
+  refine ⟨hpc.1, fun j hj => ?_⟩
+  have hj' : j < c.slots.length := by simpa [setSlot] using hj
+  simp only [setSlot, List.getElem_modify]
+  by_cases hsj : s = j
+  · subst hsj; simp only [if_true]; exact ⟨hid, hself⟩
+  · simp only [hsj, if_false]
+    rw [hother j (fun e => hsj e.symm)]
+    exact hpc.2 j hj'
+
+theorem live_getD (sv : Server) (i : Nat) (sq : Seq) (h : Live sv i sq) : sv.seqs.getD i none = some sq := by
+  unfold Live at h
+  rw [List.getD_eq_getElem?_getD, h]; rfl
+
+/-- the entry is empty: nothing to do -/
+theorem R_skip (sv : Server) (pend : Nat → List Tok) (i : Nat) (h : R sv pend i i)
+    (hn : sv.seqs.getD i none = none) : R sv pend (i + 1) (i + 1) := by
+  refine ⟨h.pc, h.cfg, h.own, h.lenb, h.np, ?_, fun i' sq hl hle => h.lp i' sq hl (by omega)⟩
+  intro i' sq hl hlt
+  by_cases hi : i' = i
+  · subst hi; rw [live_getD sv i' sq hl] at hn; cases hn
+  · exact h.dn i' sq hl (by omega)
+
+/-- `seq.cache.Inputs = append(seq.cache.Inputs, seq.pendingInputs...)` for entry `i` -/
+theorem R_append (sv : Server) (pend : Nat → List Tok) (i : Nat) (sq : Seq) (h : R sv pend i i) (hl : Live sv i sq) :
+    R { sv with cache := { sv.cache with slots := setSlot sv.cache.slots sq.slot fun s => { s with inputs := s.inputs ++ sq.pending } } }
+      (upd pend sq.slot []) i (i + 1) := by
+  obtain ⟨hsv, hsu⟩ := h.own.valid i sq hl
+  have hp : sq.pending = pend sq.slot := h.lp i sq hl (Nat.le_refl _)
+  have hlive : ∀ i' sq', Live { sv with cache := { sv.cache with slots := setSlot sv.cache.slots sq.slot fun s => { s with inputs := s.inputs ++ sq.pending } } } i' sq' ↔ Live sv i' sq' := fun _ _ => Iff.rfl
+  refine ⟨?_, ⟨h.cfg.win, h.cfg.fix, h.cfg.ctx⟩, ⟨?_, ?_⟩, ?_, ?_, ?_, ?_⟩
+  · apply PC_update sv.cache pend _ sq.slot hsv _ h.pc (h.pc.2 _ hsv).1
+    · intro j hj; simp only [upd, hj, if_false]
+    · have := (h.pc.2 _ hsv).2
+      simp only [upd, if_true, List.append_nil]
+      rw [← hp] at this
+      exact this
+  · intro i' sq' hl'
+    obtain ⟨h1, h2⟩ := h.own.valid i' sq' hl'
+    simp only [setSlot_length, getSlot_setSlot _ _ _ _ hsv]
+    refine ⟨h1, ?_⟩
+    split
+    · next e => rw [e] at h2; exact h2
+    · exact h2
+  · exact h.own.distinct
+  · intro j hj
+    simp only [setSlot_length] at hj
+    simp only [getSlot_setSlot _ _ _ _ hsv]
+    by_cases hjs : j = sq.slot
+    · have := h.lenb j hj
+      simp only [hjs, if_true, upd, List.length_append, List.length_nil, hp] at this ⊢
+      omega
+    · simp only [hjs, if_false, upd]; exact h.lenb j hj
+  · intro j hj hno
+    simp only [setSlot_length] at hj
+    by_cases hjs : j = sq.slot
+    · simp only [upd, hjs, if_true]
+    · simp only [upd, hjs, if_false]; exact h.np j hj hno
+  · intro i' sq' hl' hlt
+    obtain ⟨h1, h2⟩ := h.dn i' sq' hl' hlt
+    refine ⟨h1, ?_⟩
+    by_cases hjs : sq'.slot = sq.slot
+    · simp only [upd, hjs, if_true]
+    · simp only [upd, hjs, if_false]; exact h2
+  · intro i' sq' hl' hle
+    have hne : sq'.slot ≠ sq.slot := fun e => by
+      have := h.own.distinct i' i sq' sq hl' hl e; omega
+    simp only [upd, hne, if_false]
+    exact h.lp i' sq' hl' (by omega)
+
+/-- entry `i` stays alive with nothing pending -/
+theorem R_setseq (sv : Server) (pend : Nat → List Tok) (i : Nat) (sq sq' : Seq) (h : R sv pend i (i + 1))
+    (hpe : pend sq.slot = []) (hl : Live sv i sq) (hslot : sq'.slot = sq.slot) (hpend : sq'.pending = []) :
+    R { sv with seqs := setSeq sv.seqs i (some sq') } pend (i + 1) (i + 1) := by
+  have hi : i < sv.seqs.length := live_lt _ _ _ hl
+  have hlive : ∀ i' s', Live { sv with seqs := setSeq sv.seqs i (some sq') } i' s' →
+      (i' = i ∧ s' = sq') ∨ (i' ≠ i ∧ Live sv i' s') := by
+    intro i' s' h'
+    unfold Live at h'
+    simp only at h'
+    rcases (live_set _ _ _ hi _ _).mp h' with ⟨h1, h2⟩ | h2
+    · exact Or.inl ⟨h1, by simpa using h2.symm⟩
+    · exact Or.inr h2
+  have hback : ∀ i' s', i' ≠ i → Live sv i' s' → Live { sv with seqs := setSeq sv.seqs i (some sq') } i' s' := by
+    intro i' s' hne h'
+    unfold Live; simp only
+    exact (live_set _ _ _ hi _ _).mpr (Or.inr ⟨hne, h'⟩)
+  have hself : Live { sv with seqs := setSeq sv.seqs i (some sq') } i sq' := by
+    unfold Live; simp only
+    exact (live_set _ _ _ hi _ _).mpr (Or.inl ⟨rfl, rfl⟩)
+  refine ⟨h.pc, h.cfg, ⟨?_, ?_⟩, h.lenb, ?_, ?_, ?_⟩
+  · intro i' s' h'
+    rcases hlive i' s' h' with ⟨_, rfl⟩ | ⟨_, hold⟩
+    · rw [hslot]; exact h.own.valid i sq hl
+    · exact h.own.valid i' s' hold
+  · intro i1 i2 s1 s2 h1 h2 he
+    rcases hlive i1 s1 h1 with ⟨e1, rfl⟩ | ⟨n1, o1⟩ <;> rcases hlive i2 s2 h2 with ⟨e2, rfl⟩ | ⟨n2, o2⟩
+    · rw [e1, e2]
+    · rw [hslot] at he
+      exact absurd (h.own.distinct i i2 sq s2 hl o2 he).symm n2
+    · rw [hslot] at he
+      exact absurd (h.own.distinct i1 i s1 sq o1 hl he) n1
+    · exact h.own.distinct i1 i2 s1 s2 o1 o2 he
+  · intro j hj hno
+    apply h.np j hj
+    intro i'' sq'' hl''
+    by_cases hii : i'' = i
+    · subst hii
+      have := live_inj hl hl''
+      subst this
+      rw [← hslot]; exact hno i'' sq' hself
+    · exact hno i'' sq'' (hback _ _ hii hl'')
+  · intro i' s' h' hlt
+    rcases hlive i' s' h' with ⟨_, rfl⟩ | ⟨hne, hold⟩
+    · exact ⟨hpend, by rw [hslot]; exact hpe⟩
+    · exact h.dn i' s' hold (by omega)
+  · intro i' s' h' hle
+    rcases hlive i' s' h' with ⟨e, _⟩ | ⟨hne, hold⟩
+    · omega
+    · exact h.lp i' s' hold hle
+
+/-- entry `i` ends: its slot's record is cut to `t` inputs (`t ≥` length: plain release) and the slot is
+    released by its owner -/
+theorem R_finish (sv : Server) (pend : Nat → List Tok) (i : Nat) (sq : Seq) (g : Slot → Slot) (t : Nat)
+    (h : R sv pend i (i + 1)) (hpe : pend sq.slot = []) (hl : Live sv i sq)
+    (hg : g (getSlot sv.cache.slots sq.slot) =
+      { getSlot sv.cache.slots sq.slot with inputs := (getSlot sv.cache.slots sq.slot).inputs.take t, inUse := false }) :
+    R { sv with cache := { sv.cache with slots := setSlot sv.cache.slots sq.slot g }, seqs := setSeq sv.seqs i none }
+      pend (i + 1) (i + 1) := by
+  have hi : i < sv.seqs.length := live_lt _ _ _ hl
+  obtain ⟨hsv, hsu⟩ := h.own.valid i sq hl
+  have hg' : g sv.cache.slots[sq.slot] =
+      { sv.cache.slots[sq.slot] with inputs := sv.cache.slots[sq.slot].inputs.take t, inUse := false } := by
+    rw [← getSlot_eq _ _ hsv]; exact hg
+  have hlive : ∀ i' s', Live { sv with cache := { sv.cache with slots := setSlot sv.cache.slots sq.slot g }, seqs := setSeq sv.seqs i none } i' s' →
+      i' ≠ i ∧ Live sv i' s' := by
+    intro i' s' h'
+    unfold Live at h'
+    simp only at h'
+    rcases (live_set _ _ _ hi _ _).mp h' with ⟨_, h2⟩ | h2
+    · cases h2
+    · exact h2
+  have hback : ∀ i' s', i' ≠ i → Live sv i' s' →
+      Live { sv with cache := { sv.cache with slots := setSlot sv.cache.slots sq.slot g }, seqs := setSeq sv.seqs i none } i' s' := by
+    intro i' s' hne h'
+    unfold Live; simp only
+    exact (live_set _ _ _ hi _ _).mpr (Or.inr ⟨hne, h'⟩)
+  refine ⟨?_, ⟨h.cfg.win, h.cfg.fix, h.cfg.ctx⟩, ⟨?_, ?_⟩, ?_, ?_, ?_, ?_⟩
+  · apply PC_update sv.cache pend pend sq.slot hsv g h.pc
+    · rw [hg']; exact (h.pc.2 _ hsv).1
+    · intro j _; rfl
+    · obtain ⟨_, hok⟩ := h.pc.2 _ hsv
+      rw [hpe, slot_append_nil] at hok
+      rw [hg', hpe]
+      simp only [List.append_nil]
+      refine ⟨?_, fun hh => by cases hh⟩
+      simp only
+      have hn : (sv.cache.slots[sq.slot].inputs.take t).length ≤ sv.cache.slots[sq.slot].inputs.length := by
+        simp [List.length_take]; omega
+      have := cut_perm (view sv.cache.cells sv.cache.slots[sq.slot].id) sv.cache.slots[sq.slot].inputs _ hn hok.1
+      rw [take_length_take] at this
+      exact this
+  · intro i' s' h'
+    obtain ⟨hne, hold⟩ := hlive i' s' h'
+    obtain ⟨h1, h2⟩ := h.own.valid i' s' hold
+    have hs : s'.slot ≠ sq.slot := fun e => hne (h.own.distinct i' i s' sq hold hl e)
+    simp only [setSlot_length]
+    exact ⟨h1, by rw [getSlot_setSlot_other _ _ _ _ hs]; exact h2⟩
+  · intro i1 i2 s1 s2 h1 h2 he
+    exact h.own.distinct i1 i2 s1 s2 (hlive _ _ h1).2 (hlive _ _ h2).2 he
+  · intro j hj
+    simp only [setSlot_length] at hj
+    have := h.lenb j hj
+    simp only [getSlot_setSlot _ _ _ _ hsv]
+    by_cases hjs : j = sq.slot
+    · simp only [hjs, if_true, hg, List.length_take] at this ⊢; omega
+    · simp only [hjs, if_false]; exact this
+  · intro j hj hno
+    simp only [setSlot_length] at hj
+    by_cases hjs : j = sq.slot
+    · rw [hjs]; exact hpe
+    · apply h.np j hj
+      intro i'' sq'' hl''
+      by_cases hii : i'' = i
+      · subst hii
+        have := live_inj hl hl''
+        subst this
+        exact fun e => hjs e.symm
+      · exact hno i'' sq'' (hback _ _ hii hl'')
+  · intro i' s' h' hlt
+    obtain ⟨hne, hold⟩ := hlive i' s' h'
+    exact h.dn i' s' hold (by omega)
+  · intro i' s' h' hle
+    obtain ⟨hne, hold⟩ := hlive i' s' h'
+    exact h.lp i' s' hold hle
+
+theorem setSlot_setSlot (l : List Slot) (i : Nat) (f g : Slot → Slot) :
+    setSlot (setSlot l i f) i g = setSlot l i (fun s => g (f s)) := by
+  unfold setSlot
+  apply List.ext_getElem?
+  intro j
+  simp only [List.getElem?_modify]
+  by_cases h : i = j
+  · simp [h]; cases l[j]? <;> simp
+  · simp [h]
+
+theorem R_weaken (sv : Server) (pend : Nat → List Tok) (i : Nat) (h : R sv pend i i) : R sv pend i (i + 1) :=
+  ⟨h.pc, h.cfg, h.own, h.lenb, h.np, h.dn, fun i' sq hl hle => h.lp i' sq hl (by omega)⟩
+
+/-- **The per-sequence work after Forward** (append the pending inputs to the record, EOS / numPredict /
+    stop string with its cut of the record, release of the slot by its owner) keeps the invariant. -/
+theorem phase3Seq_R (logits : List Tok) (i : Nat) (sv : Server) (o : StepObs) (sq : Seq) (pend : Nat → List Tok)
+    (h : R sv pend i i) (hl : Live sv i sq) :
+    (∃ pend', R (phase3Seq logits i sv o sq).1 pend' (i + 1) (i + 1)) ∧
+      (phase3Seq logits i sv o sq).1.seqs.length = sv.seqs.length := by
+  -- after the append
+  have hmid : ∃ pend1, R (appendPending sv sq) pend1 i (i + 1) ∧ pend1 sq.slot = [] ∧
+      Live (appendPending sv sq) i sq ∧ (appendPending sv sq).seqs.length = sv.seqs.length := by
+    unfold appendPending
+    by_cases hp : sq.pending.isEmpty
+    · simp only [hp, if_true]
+      have hpn : sq.pending = [] := by simpa using hp
+      exact ⟨pend, R_weaken sv pend i h, by rw [← h.lp i sq hl (Nat.le_refl _)]; exact hpn, hl, trivial⟩
+    · simp only [hp, Bool.false_eq_true, if_false]
+      exact ⟨_, R_append sv pend i sq h hl, by simp [upd], hl, trivial⟩
+  obtain ⟨pend1, hR, hpe, hl1, hlen⟩ := hmid
+  unfold phase3Seq
+  simp only
+  generalize appendPending sv sq = sv1 at hR hpe hl1 hlen ⊢
+  have hrel : ∀ (sq' : Seq) (o' : StepObs), sq'.slot = sq.slot →
+      (∃ pend', R (removeSequence sv1 o' i sq' 0).1 pend' (i + 1) (i + 1)) ∧
+        (removeSequence sv1 o' i sq' 0).1.seqs.length = sv.seqs.length := by
+    intro sq' o' hs
+    rw [(removeSequence_batch sv1 o' i sq' 0).2, hs]
+    refine ⟨⟨pend1, ?_⟩, by simp only [releaseSv, setSeq, List.length_set]; exact hlen⟩
+    exact R_finish sv1 pend1 i sq _ (getSlot sv1.cache.slots sq.slot).inputs.length hR hpe hl1 (by simp)
+  have hset : ∀ (sq' : Seq) (o' : StepObs), sq'.slot = sq.slot → sq'.pending = [] →
+      (∃ pend', R ({ sv1 with seqs := setSeq sv1.seqs i (some sq') }, o').1 pend' (i + 1) (i + 1)) ∧
+        ({ sv1 with seqs := setSeq sv1.seqs i (some sq') }, o').1.seqs.length = sv.seqs.length := by
+    intro sq' o' hs hp
+    exact ⟨⟨pend1, R_setseq sv1 pend1 i sq sq' hR hpe hl1 hs hp⟩, by simp only [setSeq, List.length_set]; exact hlen⟩
+  split
+  · exact hset _ _ rfl rfl
+  · split
+    · exact hrel _ _ rfl
+    · split
+      · -- stop string: cut of the record, then release
+        rw [(removeSequence_batch _ _ i _ 0).2]
+        simp only [releaseSv, setSlot_setSlot]
+        refine ⟨⟨pend1, ?_⟩, by simp only [setSeq, List.length_set]; exact hlen⟩
+        exact R_finish sv1 pend1 i sq _ _ hR hpe hl1 rfl
+      · split
+        · exact hset _ _ rfl rfl
+        · exact hset _ _ rfl rfl
+
+/-- the whole per-sequence loop -/
+theorem phase3_R (logits : List Tok) : ∀ (k i : Nat) (sv : Server) (o : StepObs) (pend : Nat → List Tok),
+    R sv pend i i →
+    (∃ pend', R (phase3 logits k i sv o).1 pend' (i + k) (i + k)) ∧ (phase3 logits k i sv o).1.seqs.length = sv.seqs.length := by
+  intro k
+  induction k with
+  | zero => intro i sv o pend h; exact ⟨⟨pend, h⟩, rfl⟩
+  | succ k ih =>
+    intro i sv o pend h
+    unfold phase3
+    cases hq : sv.seqs.getD i none with
+    | none =>
+      simp only
+      have := ih (i + 1) sv o pend (R_skip sv pend i h hq)
+      rw [show i + (k + 1) = i + 1 + k by omega]
+      exact this
+    | some sq =>
+      simp only
+      obtain ⟨⟨pend', h'⟩, hlen⟩ := phase3Seq_R logits i sv o sq pend h (getD_live _ _ _ hq)
+      have := ih (i + 1) _ (phase3Seq logits i sv o sq).2 pend' h'
+      rw [show i + (k + 1) = i + 1 + k by omega]
+      exact ⟨this.1, this.2.trans hlen⟩
+
+/-! ## processBatch as a whole -/
+
+/-- **The invariant of the runner between two events**: the cache is coherent, every live sequence owns
+    its slot exclusively, no record exceeds the context, nothing is pending. -/
+structure SInv (sv : Server) : Prop where
+  coh : Coherent sv.cache
+  cfg : Cfg sv.cache
+  own : Owned sv
+  lenb : ∀ j, j < sv.cache.slots.length → (getSlot sv.cache.slots j).inputs.length ≤ sv.cache.numCtx
+  idle : ∀ i sq, Live sv i sq → sq.pending = []
+
+/-- the initial state of batch assembly -/
+def ph1Init (sv : Server) : Ph1 :=
+  { sv := sv, obs := {}, outs := [], resume := none, seqIdx := (sv.nextSeq + sv.seqs.length - 1) % sv.seqs.length }
+
+/-- the layout handed over after a defrag (only used when no run of free cells is long enough) is a
+    relocation of the cells as they are when Forward starts: C06's obligation about `defrag` -/
+def AdoptOK (sv : Server) (adopt : Option (List Cell)) : Prop :=
+  ∀ cs, adopt = some cs → ∀ p, phase1 sv.seqs.length (ph1Init sv) = .ok p →
+    (∀ s, (view cs s).Perm (view p.sv.cache.cells s)) ∧ PosBound cs
+
+theorem canonFrom_eq_nil (k : Nat) (l : List Tok) (h : canonFrom k l = []) : l = [] := by
+  cases l with
+  | nil => rfl
+  | cons a as => simp [canonFrom] at h
+
+theorem processBatch_unfold (sv : Server) (adopt : Option (List Cell)) (sv' : Server) (o : StepObs)
+    (h : processBatch sv adopt = .ok (sv', o)) :
+    ∃ p, phase1 sv.seqs.length (ph1Init sv) = .ok p ∧
+      ((p.obs.batch = [] ∧ sv'.cache = p.sv.cache ∧ sv'.seqs = p.sv.seqs) ∨
+       (p.obs.batch ≠ [] ∧ ∃ cells loc logits nx,
+          ((cells = evict p.sv.cache.window p.sv.cache.cells p.obs.batch ∧ adopt = none) ∨ adopt = some cells) ∧
+          findStartLoc cells p.obs.batch.length = some loc ∧
+          (sv', o) = phase3 logits sv.seqs.length 0
+            { p.sv with nextSeq := nx, cache := { p.sv.cache with cells := store cells loc p.obs.batch } }
+            { p.obs with outs := (p.outs.zip logits).map fun (bi, t) => ((p.obs.batch.getD bi ⟨0, 0, 0⟩).seq, t) })) := by
+  unfold processBatch at h
+  simp only [bind, Except.bind] at h
+  cases hp : phase1 sv.seqs.length
+      { sv := sv, obs := {}, outs := [], resume := none, seqIdx := (sv.nextSeq + sv.seqs.length - 1) % sv.seqs.length } with
+  | error e => simp [hp] at h
+  | ok p =>
+    refine ⟨p, hp, ?_⟩
+    simp only [hp] at h
+    by_cases hb : p.obs.batch.isEmpty
+    · simp only [hb, if_true, pure, Except.pure, Except.ok.injEq, Prod.mk.injEq] at h
+      left
+      refine ⟨by simpa using hb, ?_, ?_⟩
+      · rw [← h.1]
+      · rw [← h.1]
+    · simp only [hb, Bool.false_eq_true, if_false] at h
+      right
+      refine ⟨by simpa using hb, ?_⟩
+      cases hf : findStartLoc (evict p.sv.cache.window p.sv.cache.cells p.obs.batch) p.obs.batch.length with
+      | some loc =>
+        simp only [hf] at h
+        cases adopt with
+        | some cs => simp [throw, throwThe, MonadExceptOf.throw] at h
+        | none =>
+          simp only [pure, Except.pure, Except.ok.injEq] at h
+          exact ⟨_, loc, _, _, Or.inl ⟨rfl, rfl⟩, hf, h.symm⟩
+      | none =>
+        simp only [hf] at h
+        cases adopt with
+        | none => simp [throw, throwThe, MonadExceptOf.throw] at h
+        | some cs =>
+          simp only at h
+          cases hf2 : findStartLoc cs p.obs.batch.length with
+          | none => simp [hf2, throw, throwThe, MonadExceptOf.throw] at h
+          | some loc =>
+            simp only [hf2, pure, Except.pure, Except.ok.injEq] at h
+            exact ⟨cs, loc, _, _, Or.inr rfl, hf2, h.symm⟩
+
+theorem SInv_of_R (sv : Server) (pend : Nat → List Tok) (n : Nat) (hn : n = sv.seqs.length) (h : R sv pend n n) :
+    SInv sv := by
+  have hdn : ∀ i sq, Live sv i sq → sq.pending = [] ∧ pend sq.slot = [] := fun i sq hl =>
+    h.dn i sq hl (by rw [hn]; exact live_lt _ _ _ hl)
+  have hp : ∀ j, j < sv.cache.slots.length → pend j = [] := by
+    intro j hj
+    by_cases hex : ∃ i sq, Live sv i sq ∧ sq.slot = j
+    · obtain ⟨i, sq, hl, rfl⟩ := hex; exact (hdn i sq hl).2
+    · exact h.np j hj (fun i sq hl e => hex ⟨i, sq, hl, e⟩)
+  refine ⟨⟨h.pc.1, fun j hj => ?_⟩, h.cfg, h.own, ?_, fun i sq hl => (hdn i sq hl).1⟩
+  · obtain ⟨hid, hok⟩ := h.pc.2 j hj
+    rw [hp j hj, slot_append_nil] at hok
+    exact ⟨hid, hok⟩
+  · intro j hj
+    have := h.lenb j hj
+    omega
+
+/-- **processBatch keeps the runner's invariant.**  For every server state satisfying `SInv` (plain causal
+    cache, failed-shift reset = MaxInt32), any number of live sequences batched together, any batch size,
+    shifts on either path, stop cuts and releases: if the executable `processBatch` of the model — the
+    function the oracle runs and L1 compares with the real code after every event — returns normally, the
+    cache is coherent again, every live sequence still owns its slot exclusively, no record exceeds the
+    context, and nothing is left pending. -/
+theorem processBatch_SInv (sv : Server) (adopt : Option (List Cell)) (sv' : Server) (o : StepObs)
+    (hinv : SInv sv) (had : AdoptOK sv adopt) (h : processBatch sv adopt = .ok (sv', o)) :
+    SInv sv' ∧ sv'.seqs.length = sv.seqs.length := by
+  obtain ⟨p, hp1, hrest⟩ := processBatch_unfold sv adopt sv' o h
+  have hP0 : PInv (ph1Init sv).sv (ph1Init sv).obs.batch (fun _ => []) := by
+    refine ⟨hinv.coh, hinv.cfg, hinv.own, ⟨fun j hj => ⟨rfl, by have := hinv.lenb j hj; simp only [ph1Init, List.length_nil, Nat.add_zero]; exact this⟩, fun t ht => by cases ht⟩,
+      fun i sq hl => hinv.idle i sq hl, fun _ _ _ => rfl⟩
+  obtain ⟨⟨pend, hP⟩, hlen⟩ := phase1_PInv sv.seqs.length (ph1Init sv) p hp1 (Nat.le_refl _)
+    (fun i sq hl hne => absurd (hinv.idle i sq hl) hne) ⟨_, hP0⟩
+  have hlen' : p.sv.seqs.length = sv.seqs.length := hlen
+  have hpu : ∀ j, j < p.sv.cache.slots.length → pend j ≠ [] → (getSlot p.sv.cache.slots j).inUse = true := by
+    intro j hj hne
+    by_cases hex : ∃ i sq, Live p.sv i sq ∧ sq.slot = j
+    · obtain ⟨i, sq, hl, rfl⟩ := hex; exact (hP.own.valid i sq hl).2
+    · exact absurd (hP.np j hj (fun i sq hl e => hex ⟨i, sq, hl, e⟩)) hne
+  rcases hrest with ⟨hb, hc, hs⟩ | ⟨hb, cells, loc, logits, nx, hcells, hfind, hres⟩
+  · -- nothing to decode
+    have hpn : ∀ j, j < p.sv.cache.slots.length → pend j = [] := by
+      intro j hj
+      have := (hP.bv.1 j hj).1
+      rw [hb] at this
+      exact canonFrom_eq_nil _ _ this.symm
+    have hlive : ∀ i sq, Live sv' i sq → Live p.sv i sq := by
+      intro i sq hl; unfold Live at hl ⊢; rw [← hs]; exact hl
+    refine ⟨⟨by rw [hc]; exact hP.coh, by rw [hc]; exact hP.cfg, ⟨?_, ?_⟩, ?_, ?_⟩, by rw [hs]; exact hlen'⟩
+    · intro i sq hl; rw [hc]; exact hP.own.valid i sq (hlive i sq hl)
+    · intro i i' sq sq' h1 h2 he; exact hP.own.distinct i i' sq sq' (hlive _ _ h1) (hlive _ _ h2) he
+    · intro j hj
+      rw [hc] at hj ⊢
+      have := (hP.bv.1 j hj).2; omega
+    · intro i sq hl
+      have hl' := hlive i sq hl
+      rw [hP.lp i sq hl']
+      exact hpn _ (hP.own.valid i sq hl').1
+  · -- Forward: StartForward (+ defrag), Put; then the per-sequence loop
+    have hwin : p.sv.cache.window = none := hP.cfg.win
+    have hrel : (∀ s, (view cells s).Perm (view p.sv.cache.cells s)) ∧ PosBound cells := by
+      rcases hcells with ⟨rfl, _⟩ | hsome
+      · rw [hwin]; exact ⟨fun s => List.Perm.refl _, hP.coh.1⟩
+      · exact had cells hsome p hp1
+    have hfree := findStartLoc_free cells _ loc hfind
+    have hpc := store_PC p.sv.cache p.obs.batch pend loc cells hP.coh hP.cfg hP.bv hpu hrel.1 hrel.2 hfree
+    have hR0 : R { p.sv with nextSeq := nx, cache := { p.sv.cache with cells := store cells loc p.obs.batch } } pend 0 0 :=
+      ⟨hpc, ⟨hP.cfg.win, hP.cfg.fix, hP.cfg.ctx⟩, ⟨hP.own.valid, hP.own.distinct⟩, fun j hj => (hP.bv.1 j hj).2, hP.np,
+        fun i sq _ hlt => by omega, fun i sq hl _ => hP.lp i sq hl⟩
+    obtain ⟨⟨pend', hR⟩, hl3⟩ := phase3_R logits sv.seqs.length 0 _ { p.obs with outs := (p.outs.zip logits).map fun (bi, t) => ((p.obs.batch.getD bi ⟨0, 0, 0⟩).seq, t) } pend hR0
+    rw [← hres] at hR hl3
+    simp only at hR hl3
+    rw [Nat.zero_add] at hR
+    have hl4 : sv'.seqs.length = sv.seqs.length := hl3.trans hlen'
+    exact ⟨SInv_of_R sv' pend' _ hl4.symm hR, hl4⟩
+
+/-! ## admission (`completion`'s slot-loading block) and whole histories -/
+
+/-- what a successful LoadCacheSlot does to the slots, for a coherent cache -/
+theorem load_facts (c : Cache) (hc : Coherent c) (prompt : List Tok) (now : Nat) (cr : CanRes) (c' : Cache) (i : Nat)
+    (rest : List Tok) (h : loadCacheSlot c prompt now cr = .ok (c', i, rest)) :
+    c'.numCtx = c.numCtx ∧ c'.window = c.window ∧ c'.slots.length = c.slots.length ∧ i < c.slots.length ∧
+      (getSlot c.slots i).inUse = false ∧ (getSlot c'.slots i).inUse = true ∧
+      (∀ N, (∀ j, j < c.slots.length → (getSlot c.slots j).inputs.length ≤ N) →
+        (getSlot c'.slots i).inputs.length ≤ N) := by
+  obtain ⟨c1, i0, n, hf, ht⟩ := load_split c prompt now cr c' i rest h
+  have sp := findSlot_spec c prompt now c1 i0 n hf
+  have hc1 := coherent_find c hc prompt c1 i0 n sp
+  obtain ⟨m, _, _, rfl, _, hs⟩ := loadTail_shape c1 i0 n prompt now cr c' i rest ht
+  obtain ⟨m', _, hc'⟩ := loadTail_ok c1 i n prompt now cr hc1.1 c' i rest ht
+  have hi1 : i < c1.slots.length := by rw [findSpec_length sp]; exact sp.valid
+  have hlen : c'.slots.length = c.slots.length := by rw [hs, setSlot_length, findSpec_length sp]
+  have hnum : c'.numCtx = c.numCtx ∧ c'.window = c.window := by
+    rw [hc']
+    rcases sp.shape with rfl | ⟨li, _, _, _, rfl⟩ <;> exact ⟨rfl, rfl⟩
+  refine ⟨hnum.1, hnum.2, hlen, sp.valid, sp.free, ?_, ?_⟩
+  · rw [hs, getSlot_setSlot_same _ _ _ hi1]
+  · intro N hN
+    rw [hs, getSlot_setSlot_same _ _ _ hi1]
+    simp only [List.length_take]
+    rcases sp.shape with rfl | ⟨li, hli, _, _, rfl⟩
+    · have := hN i sp.valid; omega
+    · simp only [getSlot_setSlot_same _ _ _ sp.valid, List.length_take]
+      have := hN li hli; omega
+
+/-- LoadCacheSlot on the server: the invariant is kept and the returned slot belongs to no live sequence -/
+theorem SInv_load (sv : Server) (h : SInv sv) (prompt : List Tok) (now : Nat) (cr : CanRes) (c : Cache) (si : Nat)
+    (rest : List Tok) (hload : loadCacheSlot sv.cache prompt now cr = .ok (c, si, rest)) :
+    SInv { sv with cache := c } ∧ si < c.slots.length ∧ (getSlot c.slots si).inUse = true ∧
+      ∀ i sq, Live sv i sq → sq.slot ≠ si := by
+  obtain ⟨hnum, hwin, hlen, hsi, hfree, hused, hrec⟩ := load_facts sv.cache h.coh prompt now cr c si rest hload
+  obtain ⟨hcoh, hre⟩ := load_coherent sv.cache h.coh prompt now cr c si rest hload
+  have hother := load_other_records sv.cache prompt now cr c si rest hload
+  have hfresh : ∀ i sq, Live sv i sq → sq.slot ≠ si := by
+    intro i sq hl e
+    have := (h.own.valid i sq hl).2
+    rw [e, hfree] at this; cases this
+  refine ⟨⟨hcoh, ⟨hwin.trans h.cfg.win, hre.trans h.cfg.fix, by rw [hnum]; exact h.cfg.ctx⟩, ⟨?_, h.own.distinct⟩, ?_, h.idle⟩,
+    by rw [hlen]; exact hsi, hused, hfresh⟩
+  · intro i sq hl
+    obtain ⟨h1, h2⟩ := h.own.valid i sq hl
+    exact ⟨by simp only [hlen]; exact h1, by simp only; rw [hother _ (hfresh i sq hl)]; exact h2⟩
+  · intro j hj
+    simp only [hlen] at hj
+    simp only [hnum]
+    by_cases hjs : j = si
+    · rw [hjs]; exact hrec _ h.lenb
+    · rw [hother j hjs]; exact h.lenb j hj
+
+/-- the new Sequence is entered into `s.seqs` with the slot LoadCacheSlot returned -/
+theorem SInv_admit (sv : Server) (h : SInv sv) (i si : Nat) (sq : Seq) (hi : i < sv.seqs.length)
+    (hsi : si < sv.cache.slots.length) (hu : (getSlot sv.cache.slots si).inUse = true)
+    (hfresh : ∀ i' s', Live sv i' s' → s'.slot ≠ si) (hslot : sq.slot = si) (hp : sq.pending = []) :
+    SInv { sv with seqs := sv.seqs.set i (some sq) } := by
+  have hlive : ∀ i' s', Live { sv with seqs := sv.seqs.set i (some sq) } i' s' →
+      (i' = i ∧ s' = sq) ∨ (i' ≠ i ∧ Live sv i' s') := by
+    intro i' s' h'
+    unfold Live at h'
+    simp only at h'
+    rcases (live_set _ _ _ hi _ _).mp h' with ⟨h1, h2⟩ | h2
+    · exact Or.inl ⟨h1, by simpa using h2.symm⟩
+    · exact Or.inr h2
+  refine ⟨h.coh, h.cfg, ⟨?_, ?_⟩, h.lenb, ?_⟩
+  · intro i' s' h'
+    rcases hlive i' s' h' with ⟨_, rfl⟩ | ⟨_, hold⟩
+    · rw [hslot]; exact ⟨hsi, hu⟩
+    · exact h.own.valid i' s' hold
+  · intro i1 i2 s1 s2 h1 h2 he
+    rcases hlive i1 s1 h1 with ⟨e1, rfl⟩ | ⟨n1, o1⟩ <;> rcases hlive i2 s2 h2 with ⟨e2, rfl⟩ | ⟨n2, o2⟩
+    · rw [e1, e2]
+    · rw [hslot] at he; exact absurd he.symm (hfresh i2 s2 o2)
+    · rw [hslot] at he; exact absurd he (hfresh i1 s1 o1)
+    · exact h.own.distinct i1 i2 s1 s2 o1 o2 he
+  · intro i' s' h'
+    rcases hlive i' s' h' with ⟨_, rfl⟩ | ⟨_, hold⟩
+    · exact hp
+    · exact h.idle i' s' hold
+
+/-- **One event of a history keeps the invariant**: a request admitted by the slot-loading block of
+    `completion` (NewSequence, free entry, LoadCacheSlot, new Sequence), a load with every entry busy, or a
+    `processBatch`. -/
+theorem runEvent_SInv (sv : Server) (now : Nat) (e : Event) (sv' : Server) (h : SInv sv)
+    (had : ∀ adopt, e = .step adopt → AdoptOK sv adopt) (hr : (runEvent sv now e).2 = some sv') : SInv sv' := by
+  cases e with
+  | req keep np stops prompt =>
+    unfold runEvent at hr
+    simp only at hr
+    split at hr
+    · simp only [Option.some.injEq] at hr; subst hr; exact h
+    · split at hr
+      · simp only [Option.some.injEq] at hr; subst hr; exact h
+      · next i hfi =>
+        split at hr
+        · simp only [Option.some.injEq] at hr; subst hr; exact h
+        · next c si rest hload =>
+          simp only [Option.some.injEq] at hr
+          subst hr
+          obtain ⟨h1, h2, h3, h4⟩ := SInv_load sv h _ now _ c si rest hload
+          have hi : i < sv.seqs.length := by
+            have := (List.findIdx?_eq_some_iff_getElem.mp hfi)
+            exact this.1
+          exact SInv_admit { sv with cache := c } h1 i si _ hi h2 h3 h4 rfl rfl
+  | busy prompt =>
+    unfold runEvent at hr
+    simp only at hr
+    split at hr
+    · simp only [Option.some.injEq] at hr; subst hr; exact h
+    · simp only [Option.some.injEq] at hr; subst hr; exact h
+    · next c si rest hload =>
+      simp only [Option.some.injEq] at hr
+      subst hr
+      exact (SInv_load sv h _ now _ c si rest hload).1
+  | step adopt =>
+    unfold runEvent at hr
+    simp only at hr
+    split at hr
+    · simp only [Option.some.injEq] at hr; subst hr; exact h
+    · split at hr
+      · cases hr
+      · cases hr
+      · next svn o hpb =>
+        simp only [Option.some.injEq] at hr
+        subst hr
+        exact (processBatch_SInv sv adopt _ o h (had adopt rfl) hpb).1
+
+/-- the defrag hints of a history are relocations (see `AdoptOK`), at the states where they are used -/
+def HintsOK : Server → List Event → Nat → Prop
+  | _, [], _ => True
+  | sv, e :: es, now =>
+    (∀ adopt, e = .step adopt → AdoptOK sv adopt) ∧
+      match (runEvent sv now e).2 with
+      | none => True
+      | some sv' => HintsOK sv' es (now + 1)
+
+/-- **Every reachable state of the executable model satisfies the invariant** (induction over the event
+    list of `runEvents`, the function the oracle folds over a `hist` line). -/
+theorem runEvents_SInv : ∀ (evs : List Event) (sv : Server) (now : Nat) (sv' : Server), SInv sv → HintsOK sv evs now →
+    runEvents sv evs now = some sv' → SInv sv' := by
+  intro evs
+  induction evs with
+  | nil => intro sv now sv' h _ hr; simp only [runEvents, Option.some.injEq] at hr; subst hr; exact h
+  | cons e es ih =>
+    intro sv now sv' h hh hr
+    unfold runEvents at hr
+    unfold HintsOK at hh
+    cases hre : (runEvent sv now e).2 with
+    | none => simp [hre] at hr
+    | some sv1 =>
+      simp only [hre] at hr hh
+      exact ih sv1 (now + 1) sv' (runEvent_SInv sv now e sv1 h hh.1 hre) hh.2 hr
+
+/-- a brand-new runner (plain causal cache, repaired reset, context below 2^31) satisfies the invariant -/
+theorem SInv_init (parallel ctx batch : Nat) (multi canShift : Bool) (vocab eosMod : Nat) (se cc : Bool)
+    (hctx : (ctx : Int) < maxI32) :
+    SInv { mkServer maxI32 parallel ctx batch multi canShift vocab eosMod with stopEarliest := se, crCounted := cc } := by
+  have hnone : ∀ i sq, ¬ Live { mkServer maxI32 parallel ctx batch multi canShift vocab eosMod with stopEarliest := se, crCounted := cc } i sq := by
+    intro i sq hl
+    unfold Live mkServer at hl
+    simp only at hl
+    rcases Nat.lt_or_ge i parallel with h1 | h1
+    · rw [List.getElem?_replicate_of_lt h1] at hl; cases hl
+    · rw [List.getElem?_eq_none (by simpa using h1)] at hl; cases hl
+  refine ⟨coherent_init maxI32 parallel ctx batch multi canShift vocab eosMod, ⟨rfl, rfl, hctx⟩,
+    ⟨fun i sq hl => absurd hl (hnone i sq), fun i _ sq _ hl => absurd hl (hnone i sq)⟩, ?_, fun i sq hl => absurd hl (hnone i sq)⟩
+  intro j hj
+  simp only [mkServer, List.length_map, List.length_range] at hj
+  have : getSlot ((List.range parallel).map fun i => (⟨i, [], false, 0⟩ : Slot)) j = ⟨j, [], false, 0⟩ := by
+    rw [getSlot_eq _ _ (by simpa using hj)]; simp
+  simp only [mkServer, this, List.length_nil]; omega
+
+/-- **C07, clauses 1 and 2, for every history of the executable model.**  Start a new runner (any number of
+    slots, context size, batch size, slot policy, with or without shiftFn; plain causal cache; tree's reset
+    value), run ANY list of events (requests with any prompt / keep / numPredict / stop strings, loads with
+    every entry busy, processBatch passes).  If the run does not abort, then in the state reached the cached
+    contents of every slot correspond exactly to the slot's recorded inputs, and every live sequence owns
+    an in-use slot that no other live sequence has. -/
+theorem reachable_coherent_owned (parallel ctx batch : Nat) (multi canShift : Bool) (vocab eosMod : Nat) (se cc : Bool)
+    (hctx : (ctx : Int) < maxI32) (evs : List Event) (sv : Server)
+    (hh : HintsOK { mkServer maxI32 parallel ctx batch multi canShift vocab eosMod with stopEarliest := se, crCounted := cc } evs 1)
+    (hr : runEvents { mkServer maxI32 parallel ctx batch multi canShift vocab eosMod with stopEarliest := se, crCounted := cc } evs 1 = some sv) :
+    Coherent sv.cache ∧ Owned sv := by
+  have := runEvents_SInv evs _ 1 sv (SInv_init parallel ctx batch multi canShift vocab eosMod se cc hctx) hh hr
+  exact ⟨this.coh, this.own⟩
+
+/-- histories in which Forward always finds a run of free cells without defrag need no hint hypothesis -/
+theorem hintsOK_of_no_defrag : ∀ (evs : List Event) (sv : Server) (now : Nat),
+    (∀ e ∈ evs, ∀ cs, e ≠ .step (some cs)) → HintsOK sv evs now := by
+  intro evs
+  induction evs with
+  | nil => intro sv now _; trivial
+  | cons e es ih =>
+    intro sv now hno
+    unfold HintsOK
+    refine ⟨?_, ?_⟩
+    · intro adopt he cs hcs
+      subst hcs
+      exact absurd he (hno e (List.mem_cons_self ..) cs)
+    · split
+      · trivial
+      · exact ih _ _ (fun e' he' => hno e' (List.mem_cons_of_mem _ he'))
+
 end OllamaVerif.C07
